@@ -119,7 +119,8 @@ def filterRow (ft bpp : Nat) (prev : Option Bytes) : Nat → Bytes → Bytes →
     let up := match prev with
       | some r => r.getD i 0
       | none => 0
-    let left ← if i < bpp then pure 0 else idx out (i - bpp)
+    -- `result[i - bytes_per_pixel]` is evaluated by the Sub, Average and Paeth helpers only
+    let left ← if i < bpp ∨ ft = 0 ∨ ft = 2 then pure 0 else idx out (i - bpp)
     let upLeft := if i < bpp then 0 else match prev with
       | some r => r.getD (i - bpp) 0
       | none => 0
